@@ -2,6 +2,7 @@ package props
 
 import (
 	"context"
+	"errors"
 	"fmt"
 	"google.golang.org/protobuf/proto"
 	"strings"
@@ -49,6 +50,7 @@ type c18Conn struct {
 	mu       sync.Mutex
 	got      []uint64
 	changed  []uint64 // ids whose envelope did not arrive as it was fed
+	blamed   error    // a Read failed with a context error although the context it was given was alive
 	paused   bool
 	resume   chan struct{}
 	readErr  error
@@ -92,8 +94,16 @@ func execC18(t *testing.T, c C18Case) (v Verdict) {
 					continue
 				}
 				r, err := rw.Read(rctx)
+				ctxAlive := rctx.Err() == nil
 				rcancel()
 				if err != nil {
+					if ctxAlive && (errors.Is(err, context.Canceled) || errors.Is(err, context.DeadlineExceeded)) {
+						// the read failed, as it must after a cancellation - but it blames a context, and the one it
+						// was given is alive
+						cn.mu.Lock()
+						cn.blamed = err
+						cn.mu.Unlock()
+					}
 					cn.mu.Lock()
 					p = cn.paused
 					cn.mu.Unlock()
@@ -391,6 +401,10 @@ func execC18(t *testing.T, c C18Case) (v Verdict) {
 			if cn.key == "" && len(cn.got) > 0 {
 				v.failf("a connection received envelopes without a key")
 			}
+			// (cn.blamed - a Read that fails with a context error although its own context is alive - is recorded but not
+			// judged: C18 only says that reads on a cancelled connection fail, not with which error; an implementation that
+			// signals cancellation through a context of its own would be within the property)
+			_ = cn.blamed
 			if len(cn.changed) > 0 {
 				v.failf("envelopes %v were changed between the shared transport and logical connection %s", cn.changed, cn.key)
 			}
